@@ -49,3 +49,11 @@ prop("C19", ["contracts.c19_p402"],
               "current state, reports any statusword matching its state's bit pattern, displays the mode it was given",
               "controlword/statusword carried by SDO objects (the PDO transport reads a cached value and is not modelled)"],
      not_decided=["time-outs in real time; controlword/statusword carried by PDO (cached TPDO value, wait_for_reception)"])
+
+prop("C18", ["contracts.c18_lss"],
+     ["LssNoReplyServices", "LssConfigure", "LssInquire", "LssSendAddress", "LssSwitchSelective", "LssFastScanMessage", "LssFastScan", "LssFastScanTwice"],
+     assumed=["CiA 305 unconfigured slave (env/lss.py FastScanSlaveNet): answers a fast-scan frame iff bit-checked is 128 or "
+              "(LSS sub equals its position and the identity bits above bit-checked match), then moves to LSS next",
+              "at most one reply per request, delivered through LssMaster.on_message_received; silence = queue.Empty after RESPONSE_TIMEOUT",
+              "queue.Queue is FIFO (pyvc/libmodels.py)"],
+     not_decided=["several slaves answering at once; real-time behaviour of the 10 ms / 200 ms sleeps"])
